@@ -147,8 +147,6 @@ func c05Run(t *testing.T, ci any, trace bool) *verifsim.Result {
 	// the second drops the victim cache), so a run never depends on earlier runs.
 	runtime.VerifPools(true)
 	defer runtime.VerifPools(false)
-	runtime.GC()
-	runtime.GC()
 	return verifsim.Run(t, c.Cfg, trace, func(s *verifsim.Sim) {
 		pool, bad := c05Pool()
 		all := append(append([]blocks.Block{}, pool...), bad...)
